@@ -635,6 +635,12 @@ def length(ex, v, st):
         # cardinality: uninterpreted, non-negative (under-specified on purpose)
         f = z3.Function('size!%s' % C._san(ty.key), ty.sort(), z3.IntSort())
         st.assume(f(v.term) >= 0)
+        k = z3.Const(C.fresh_name('k'), ty.k.sort())
+        x = z3.Const(C.fresh_name('x'), ty.k.sort())
+        # what cardinality 0 and 1 mean (larger sizes stay uninterpreted)
+        st.assume((f(v.term) == 0) == z3.ForAll([k], z3.Not(z3.Select(v.term, k))))
+        st.assume((f(v.term) == 1) == z3.Exists([x], z3.ForAll([k],
+                  z3.Select(v.term, k) == (k == x))))
         return Val(TInt, f(v.term))
     if ty == TStr:
         if v.has_py(): return lift(len(v.py))
@@ -1318,6 +1324,13 @@ def call_method(ex, node, st):
             k = coerce(pos_args(ex, node, st)[0], rty.k)
             write(Val(rty, z3.Store(recv.term, k.term, z3.BoolVal(True))))
             return NONE
+        if meth == 'pop':
+            e = fresh(rty.k, 'popped')
+            k = z3.Const(C.fresh_name('k'), rty.k.sort())
+            ex.fail(st, z3.ForAll([k], z3.Not(z3.Select(recv.term, k))), 'KeyError')
+            st.assume(z3.Select(recv.term, e.term))
+            write(Val(rty, z3.Store(recv.term, e.term, z3.BoolVal(False))))
+            return e
         if meth in ('discard', 'remove'):
             k = coerce(pos_args(ex, node, st)[0], rty.k)
             if meth == 'remove':
